@@ -72,7 +72,8 @@ def required_cells(tier):
             "hash-first-in-literal-continuation", "comment-after-conditional-directive", "selection-inside-included-header",
             "include-of-non-source-extension", "form-feed-in-comment-or-literal", "sentinel:upper-or-mixed-case-prefix", "sentinel:followed-by-ampersand",
             "fixed:line-longer-than-132-columns", "fixed:c-comment-from-directive-line-to-later-line",
-            "fixed:conditional-inside-continued-literal-with-comments", "fixed:c-comment-opener-inside-literal"]
+            "fixed:conditional-inside-continued-literal-with-comments", "fixed:c-comment-opener-inside-literal",
+            "fixed:blank-only-piece-of-a-continued-literal"]
 
 
 def gfortran(args, cwd):
@@ -363,6 +364,8 @@ def classify(shrunk):
     body = "\n".join(shrunk.split("\n")[len(PRE):])
     if re.search(r"\\['\"]", body):
         return "backslash-before-closing-quote"
+    if re.search(r"(?m)^&[ \t]+&[ \t]*$", body):
+        return "blank-only-piece-of-a-continued-literal-in-column-one"
     return None
 
 
@@ -381,6 +384,10 @@ def fixed_texts():
         body = [head, "#ifdef A", "      ! an ordinary comment between the pieces of the literal, isn't it", "      &beta ! inside the literal &", "#endif",
                 "      ! another ordinary comment", "#if B == 1", "   ! a third one: don't count", "#else", "  ! fourth", "#endif", tail, "  call m_%d()" % (len(PRE) + 13)]
         yield "litdir", "\n".join(PRE + body + POST) + "\n"
+    # a piece of a continued literal that consists of blanks only: the blanks are characters of the literal
+    for mid in ("      &   &", "&   &", " &  &", "& &", "&\t&"):
+        body = ["  s = \"ab&", mid, "      &cd\"", "  ! comment", "  y = 2"]
+        yield "litblank", "\n".join(PRE + body + POST) + "\n"
     # literals that hold the opener (and the closer) of a C comment: they are literal text
     for lits in (("\"src/*.f90\"", "'*/'"), ("'/* not a comment'", "\"still code\""), ("\"a /* b\"", "\"c */ d\"")):
         body = ["  s = " + lits[0], "#ifdef A", "  call m_%d()" % (len(PRE) + 3), "#endif", "  ! plain comment", "  s = " + lits[1], "  call m_%d()" % (len(PRE) + 7)]
@@ -417,7 +424,8 @@ def run_shard(ctx):
             check_text(ctx, text, work, "F", DEFSETS)
             if ctx.acc.verdicts["held"] + ctx.acc.verdicts["violated"] > before:
                 ctx.acc.cells["fixed:" + {"long": "line-longer-than-132-columns", "dircom": "c-comment-from-directive-line-to-later-line",
-                                          "litdir": "conditional-inside-continued-literal-with-comments", "litc": "c-comment-opener-inside-literal"}[kind]] += 1
+                                          "litdir": "conditional-inside-continued-literal-with-comments", "litc": "c-comment-opener-inside-literal",
+                                          "litblank": "blank-only-piece-of-a-continued-literal"}[kind]] += 1
     rng = ctx.rng("random")
     for i in range(b["random"]):
         body = rand_body(rng)
